@@ -35,8 +35,12 @@ func cancelMenu(acts map[*spec][]flyt.Action, loopHorizon int) func(h *H, c call
 			return []answer{{val: pvPtr}}
 		case pExec:
 			m := []answer{{val: evPtr}}
+			if h.ctx.Err() != nil {
+				// a well-behaved exec notices the cancellation and returns (a wrapper of) ctx.Err()
+				m = append(m, answer{err: ctxAbortErr(h.ctx.Err())})
+			}
 			for _, a := range h.answers {
-				if a.err != nil {
+				if a.err != nil && !isCtxAbort(a.err) {
 					return m
 				}
 			}
@@ -54,6 +58,20 @@ func cancelMenu(acts map[*spec][]flyt.Action, loopHorizon int) func(h *H, c call
 		return m
 	}
 }
+
+var (
+	errAbortCanceled = fmt.Errorf("exec aborted: %w", context.Canceled)
+	errAbortDeadline = fmt.Errorf("exec aborted: %w", context.DeadlineExceeded)
+)
+
+func ctxAbortErr(e error) error {
+	if errors.Is(e, context.DeadlineExceeded) {
+		return errAbortDeadline
+	}
+	return errAbortCanceled
+}
+
+func isCtxAbort(e error) bool { return e == errAbortCanceled || e == errAbortDeadline }
 
 func cancelScenario(name string, d *shapeDesc, kinds []int, deadline, before, asNode bool) Scenario {
 	var h *H
@@ -100,6 +118,12 @@ func cancelScenario(name string, d *shapeDesc, kinds []int, deadline, before, as
 				}
 			}
 		}
+		// after the cancellation the fallback / post of the SAME node visit may run even where the
+		// uncancelled reference would have made another attempt first: tolerated, but the run was
+		// then cut short and must say so
+		h.allowDeviation = func(hh *H, exp, got call) bool {
+			return cs.at >= 0 && got.node == cs.node && got.visit == cs.visit && (got.ph == pFallback || got.ph == pPost)
+		}
 		h.onCall = func(h *H, c call) {
 			if cs.at == -1 && core.Choose(2) == 1 {
 				cs.at, cs.node, cs.visit = len(h.calls)-1, c.node, c.visit
@@ -136,6 +160,10 @@ func cancelScenario(name string, d *shapeDesc, kinds []int, deadline, before, as
 		default:
 			_, out, done := simulate(h.root, h.store, h.answers)
 			matchesCtx := err != nil && errors.Is(err, cs.err)
+			if h.diverged {
+				// an attempt the uncancelled run would have made was skipped: the run was cut short
+				done = false
+			}
 			if !done {
 				// cut short
 				if err == nil {
